@@ -817,9 +817,17 @@ class Extractor:
                         return None
                 return j
             j = chain_start(['iter_mut'])
+            take = None
+            if j is None:
+                j = chain_start(['iter_mut', 'take'])
+                if j is not None:
+                    # `.take(K)` of an N-element walk visits the first min(K, N) elements
+                    take = src[expr[-1].children[0].start:expr[-1].children[-1].end] if expr[-1].children else None
+                    if take is None:
+                        j = None
             if j is not None:
                 base = src[expr[0].start:expr[j - 1].end]
-                new_head = '%s in 0..%s' % (idx, length)
+                new_head = '%s in 0..%s' % (idx, length) if take is None else '%s in 0..(if (%s) < %s { (%s) } else { %s })' % (idx, take, length, take, length)
                 bind = ' let %s = &mut %s[%s];' % (pat_src, base, idx)
                 what = 'for %s in %s.iter_mut() -> index walk %s in 0..%s' % (pat_src, base, idx, length)
             else:
